@@ -54,7 +54,7 @@ class SingleMemoryStorageSchedule(CheckpointSchedule):
             if self._r == 0:
                 # Reverse
                 self._r = self._max_n
-                yield Reverse(self._max_n, 0, True)
+                yield Reverse(self._max_n, 0, False)
             elif self._r == self._max_n:
                 # Reset for new reverse
 
